@@ -9,13 +9,13 @@ desc={
 'C05':("exploration","seeded delivery schedules (reorder, loss, duplication, delay, garbage, short buffers, explicit receive nonces incl. resynchronisation backwards) over stateful sessions with a receive-counter model and a fault-free epilogue (bounded liveness); plus two complete grids: all delivery sequences of length 4 over {m0,m1,m2,garbage,set_receiving_nonce} x ciphers x backends x directions, and all sequences of depth 4 over {write, deliver, synchronised rekey, manual rekey, resync back, jump to 2^64-1} with both counters placed at 2^64-3; plus long histories (soak: more than 2^20 rejected deliveries, then more than 2^16 in-order messages, 3 ciphers x 2 backends x stateful/stateless receiver)","5.C05, 12.1, 13.2"),
 'C06':("exploration","recording pass-through Cipher injected through the resolver seam builds a (key, nonce) ledger over failing/retried calls, conversion, rekeys and explicit nonces (reserved nonce 2^64-1 always checked); ephemeral freshness checked against the RNG seam's per-call draw log, incl. RNG faults (invalid P-256 scalar); the complete one-failure grid (64 pattern/psk variants x DH x message index x 15 failure causes, retry, run to completion); stock random sources exercised directly (supplementary)","5.C06, 12.1"),
 'C07':("exploration","seeded failing calls (every cause, 1-4 per handshake, both sides, retransmission until success) with observables compared before/after (turn, finished, hash, nonces, remote static), shadow-model equality of all later bytes, a control run (same ops with failed calls removed, per-call deterministic RNG) whose wire trace must be identical, the complete one-failure grid (64 pattern/psk variants x DH x message index x 15 failure causes), and long handshake histories (soak-hs: hundreds of failing writes and rejected reads before every genuine message, 10 patterns x 2 backends)","5.C07, 12.1, 13.2"),
-'C08':("exploration","configuration faults: peers booted with one differing context item (name component incl. DH function, psk index and modifier order, prologue bit/length incl. tails beyond 65535 bytes, PSK bit, over-long PSK through set_psk, pre-shared static key incl. masked bit 255); never both finished, no transport message accepted, plus cross-session transport substitution","5.C08"),
+'C08':("exploration","configuration faults: peers booted with one differing context item (name component incl. DH function, psk index and modifier order, prologue bit/length incl. tails beyond 65535 bytes, PSK bit, over-long or truncated (zero-tailed) PSK through set_psk, PSK replaced on one side through set_psk, zero-padded spelling of a psk modifier, pre-shared static key incl. masked bit 255); never both finished, no transport message accepted, plus cross-session transport substitution","5.C08"),
 'C09':("exploration","nonce model over interleaved successful/failing reads/writes with counters placed at 2^64-3..2^64-1 (hook for the sending side), stateless boundary nonces, manual/automatic rekeys at the boundary (complete depth-4 grid at 2^64-3), recording cipher proving 2^64-1 is only used by rekey; long histories (soak) in which the counters pass 255/256 and 65535/65536 by counting","5.C09, 13.2"),
-'C10':("exploration","chaos driver + panic monitor (catch_unwind at every call) over all session states with adversarial buffers (incl. 1-15 bytes of slack), messages, keys of length 0..200, invalid P-256 scalars, unbuildable names, PSK arguments; the complete boundary sweep (every buffer / message length within +-2 of every field boundary for 64 pattern/psk variants x DH x message index, and around the tag in both transport modes); watchdog for non-termination (60 s per run); name strings by plain seeded generation plus a complete list of multi-psk names with an out-of-range index at every list position - whatever parses is also built in both roles; snow is compiled with overflow checks and debug assertions; positional resolver denial (only the k-th request refused); long handshake histories (soak-hs)","5.C10, 12.2c"),
+'C10':("exploration","chaos driver + panic monitor (catch_unwind at every call) over all session states with adversarial buffers (incl. 1-15 bytes of slack), messages, keys of length 0..200, invalid P-256 scalars, unbuildable names, PSK arguments; the complete boundary sweep (every buffer / message length within +-2 of every field boundary for 64 pattern/psk variants x DH x message index, and around the tag in both transport modes); watchdog for non-termination (60 s per run); name strings by plain seeded generation plus a complete list of multi-psk names with an out-of-range index at every list position - whatever parses is also built in both roles; snow is compiled with overflow checks and debug assertions; positional resolver denial (only the k-th request refused); long handshake histories (soak-hs) and long transport histories with 2^16 rekeys (soak); Debug of every state object and Display of every returned error rendered under the monitor; set_psk positions / key lengths beyond a byte; generate_keypair under resolver faults","5.C10, 12.2c"),
 'C11':("exploration","random call sequences (out-of-turn, after-finish, early conversion, one-way misuse) against a 10-line state-machine model, pinned state-error variants for single-cause calls, indicators compared after every call, later divergence after a misuse attributed; plus the complete set of call sequences of depth 4 (quick) / 6 (thorough) over six calls for six patterns","5.C11, 12.1"),
-'C12':("fault_enumeration","boot half enumerated completely (38 patterns x role x key subsets x psk modifier 0..9 / multi (incl. an out-of-range index at every list position) / fallback / unbuildable spellings x denied primitive, entirely or at the k-th request) against requirements derived from the pattern text; run-time half sampled (withheld PSKs must fail at the message that needs them - also after a refused set_psk and with PSKs sitting in slots the name does not use - then succeed after set_psk; shuffled modifier order; builder calls in every order)","5.C12, 12.2c"),
+'C12':("fault_enumeration","boot half enumerated completely (38 patterns x role x key subsets x psk modifier 0..9 / multi (incl. an out-of-range index at every list position) / fallback / unbuildable spellings x denied primitive, entirely or at the k-th request) against requirements derived from the pattern text; run-time half sampled (withheld PSKs must fail at the message that needs them - also after a refused set_psk and with PSKs sitting in slots the name does not use - then succeed after set_psk; shuffled modifier order; builder calls in every order; a well-formed late set_psk must be taken; single-cause boots must name their cause)","5.C12, 12.2c"),
 'C14':("exploration","field-map length prediction from the model for every write/read, buffers placed at every field boundary; plus the complete grid pattern x DH x message index x payload {max-1..max+17} x 7 buffer sizes, repeated in both transport modes with extended/truncated/forged oversize copies","5.C14, 12.1"),
-'C15':("exploration","random sequences of writes, deliveries and unilateral/synchronised/manual rekeys (incl. repeated, at nonce boundaries, both directions in one call); model applies the spec's REKEY to its own keys: byte-for-byte ciphertext equality and accept <=> keys equal; manual key values incl. all-zero, all-0xFF, one key for both directions, the other direction's key; plus the complete depth-4 grid over {write, deliver, rekey outgoing, rekey incoming, manual key on either side}","5.C15, 12.2c"),
+'C15':("exploration","random sequences of writes, deliveries and unilateral/synchronised/manual rekeys (incl. repeated, at nonce boundaries, both directions in one call); model applies the spec's REKEY to its own keys: byte-for-byte ciphertext equality and accept <=> keys equal; manual key values incl. all-zero, all-0xFF, one key for both directions, the other direction's key; rekey_manually(None, None); more than 2^16 rekeys in step (soak); plus the complete depth-4 grid over {write, deliver, rekey outgoing, rekey incoming, manual key on either side}","5.C15, 12.2c"),
 'C16':("exploration","logical clients interleaved on shared stateless sessions (any order, repetition, boundary nonces, tight buffers, rejected reads in between) against model AEAD; real threads under shuttle (random + PCT schedulers); thorough adds Miri (preemptive seeded scheduling, data-race detection); supplementary OS-thread stress (uncontrolled scheduler): spin-rendezvous threads doing concurrent writes on one end and reads of distinct genuine messages on the other (exact-fit, slack, ample buffers) right after key changes, 3 ciphers x backends; long histories (soak: more than 2^18 / 2^20 messages per key and direction, stateful vs stateless twin)","5.C16, 12.1, 12.2c"),
 'C17':("exploration","monitor: after every call and after both conversions get_remote_static() must equal the model's knowledge of the peer key (32- and 65-byte keys, pinned superfluous keys, byzantine keys); after a failed read it must equal its value before the call","5.C17, 12.1"),
 'C19':("exploration","after every read rejected for authentication the pre-filled output buffer is searched for the genuine payload plaintext (aligned windows tolerant to a few altered bytes) and for the sender's static key; seeded runs plus the complete grid cipher x backend x read path x alteration x payload buffer (exact, +1, +15, message size, ample) x payload length 16..40000","5.C19"),
